@@ -15,6 +15,7 @@ import (
 	"sort"
 	"strings"
 	"sync"
+	"syscall"
 	"time"
 
 	"github.com/coredhcp/coredhcp/handler"
@@ -49,10 +50,11 @@ type Chain struct {
 }
 
 type Case struct {
-	Chain   Chain    `json:"config"`
-	Bound   int      `json:"bound_ifindex"`
-	Oob     int      `json:"oob_ifindex"`
-	History []string `json:"datagrams_hex"` // the last one is the failing datagram
+	Chain     Chain    `json:"config"`
+	Bound     int      `json:"bound_ifindex"`
+	Oob       int      `json:"oob_ifindex"`
+	SendFails bool     `json:"every_send_fails,omitempty"` // environment fault in force
+	History   []string `json:"datagrams_hex"`              // the last one is the failing datagram
 }
 
 func args4(scratch string) map[string][]string {
@@ -132,7 +134,7 @@ func chains(thorough bool) []Chain {
 }
 
 func run(r *ev.Run) {
-	r.Rule("E3 (one process per plugin chain): grammar-generated seeds - v4: message type {DISCOVER, REQUEST, 5 others, none} x hlen {0,1,5,6,8,16,17,255} x PRL {absent, empty, full} x option sets x {giaddr, ciaddr, broadcast}; v6: 16 message types x client-id {absent, LL, LLT, EN, UUID, malformed} x {IA_NA, IA_PD with 9 hint shapes, ORO, rapid commit, server-id own/other} x relay depth 0..4, 32 and the deepest nesting that fits a datagram, plus all byte strings of length 0..2 - through the real HandleMsg4/6 under every single built-in plugin, the example-config chains and full chains in 3 rotations (thorough: every ordered pair), with listener {bound, unbound} x control message {nil, interface}. For the full chains also the complete 1-deviation closure of the seeds (every truncation, every single-bit flip, every byte replaced by 00/01/7f/80/ff, every adjacent option swap); thorough adds every pair of byte substitutions in the option area of 12 seeds per chain. E1: every sequence of length <= 2 (thorough 3) over the state-relevant datagrams on fresh range / prefix instances; plus the state graphs of C02 and C08 (requests, restarts, leases running out after an hour / two days, read-only lease database) explored breadth-first within a time budget for crashes and locks left held. Oracle: no panic, at most one reply, no lease-plugin mutex left held, a final well-formed probe is still handled, no datagram takes longer than the watchdog. Class = chain mode/proto/outcome.")
+	r.Rule("E3 (one process per plugin chain): grammar-generated seeds - v4: message type {DISCOVER, REQUEST, 5 others, none} x hlen {0,1,5,6,8,16,17,255} x PRL {absent, empty, full} x option sets x {giaddr, ciaddr, broadcast}; v6: 16 message types x client-id {absent, LL, LLT, EN, UUID, malformed} x {IA_NA, IA_PD with 9 hint shapes, ORO, rapid commit, server-id own/other} x relay depth 0..4, 32 and the deepest nesting that fits a datagram, plus all byte strings of length 0..2 - through the real HandleMsg4/6 under every single built-in plugin, the example-config chains and full chains in 3 rotations (thorough: every ordered pair), with listener {bound, unbound} x control message {nil, interface}. For the full chains also the complete 1-deviation closure of the seeds (every truncation, every single-bit flip, every byte replaced by 00/01/7f/80/ff, every adjacent option swap); thorough adds every pair of byte substitutions in the option area of 12 seeds per chain. E1: every sequence of length <= 2 (thorough 3) over the state-relevant datagrams on fresh range / prefix instances; plus the state graphs of C02 and C08 (requests, restarts, leases running out after an hour / two days, read-only lease database) explored breadth-first within a time budget for crashes and locks left held. Environment deviation: the seeds are also run with every send failing (ENETUNREACH on the UDP socket, EPERM at the raw socket). Oracle: no panic, at most one reply, no lease-plugin mutex left held, a final well-formed probe is still handled, no datagram takes longer than the watchdog. Class = chain mode/proto/outcome.")
 	r.Assume("datagrams further than one deviation from a seed, chains of 3+ plugins other than the listed ones, and the real socket write are not explored; a hang is a datagram exceeding a 20 s watchdog that reproduces when re-run alone")
 	cs := chains(!r.Quick())
 	r.Set("chains", int64(len(cs)))
@@ -321,8 +323,20 @@ func ifByIndex(idx int) net.Interface {
 var peer6s = []*net.UDPAddr{{IP: net.ParseIP("fe80::99"), Port: 546}, {IP: net.ParseIP("2001:db8::99"), Port: 546}}
 
 // handle pushes one datagram through the real entry point and applies the oracle.
+var faultOn bool
+
+// setFault switches the environment fault "every send fails" on or off.
+func setFault(on bool) {
+	faultOn = on
+	srv.Fault.SendErr, srv.Fault.FrameErr = nil, nil
+	if on {
+		srv.Fault.SendErr = fmt.Errorf("sendmsg: %w", syscall.ENETUNREACH)
+		srv.Fault.FrameErr = fmt.Errorf("Send Ethernet: Cannot open socket: %w", syscall.EPERM)
+	}
+}
+
 func (in *instance) handle(r *ev.Run, d []byte, bound, oob int, hist []string, class string) bool {
-	c := Case{Chain: in.chain, Bound: bound, Oob: oob, History: append(append([]string{}, hist...), hex.EncodeToString(d))}
+	c := Case{Chain: in.chain, Bound: bound, Oob: oob, SendFails: faultOn, History: append(append([]string{}, hist...), hex.EncodeToString(d))}
 	curMu.Lock()
 	curCase, curAt = &c, time.Now()
 	curMu.Unlock()
@@ -417,6 +431,7 @@ func worker(args []string) int {
 			panic(err)
 		}
 		var hist []string
+		setFault(cs.SendFails)
 		for i, h := range cs.History {
 			d, _ := hex.DecodeString(h)
 			ok := in.handle(r, d, cs.Bound, cs.Oob, hist, "replay")
@@ -480,6 +495,23 @@ func worker(args []string) int {
 		}
 	}
 	r.Add("seeds", int64(len(seeds)))
+	if alive {
+		// one deviation of the environment: every send fails (unreachable network for the
+		// UDP socket, refused raw socket for link-level frames). The datagrams are the same
+		// seeds; the server must log and carry on.
+		setFault(true)
+		for _, e := range envs[:2] {
+			for _, s := range all {
+				if alive = in.handle(r, s, e[0], e[1], nil, class+"/seed-send-fails"); !alive {
+					break
+				}
+			}
+			if !alive {
+				break
+			}
+		}
+		setFault(false)
+	}
 	if alive && c.Mode == "closure" {
 		cl := seeds
 		if !thorough {
